@@ -439,6 +439,10 @@ func (s *Server) overwriteMetaInfoHandler(w http.ResponseWriter, r *http.Request
 // benchmarking purposes.
 func (s *Server) overwriteMetaInfo(d core.Digest, pieceLength int64) error {
 	f, err := s.cas.GetCacheFileReader(d.Hex())
+	if os.IsNotExist(err) {
+		log.With("digest", d.Hex()).Warn("Attempted to overwrite metainfo of non-existent blob")
+		return handler.ErrorStatus(http.StatusNotFound)
+	}
 	if err != nil {
 		log.With("digest", d.Hex()).Errorf("Failed to get cache file for metainfo generation: %s", err)
 		return handler.Errorf("get cache file: %s", err)
